@@ -17,7 +17,11 @@ Range(s) == {s[i] : i \in DOMAIN s}
 (***************************************************************************)
 NoAnn == [query |-> FALSE, queryName |-> "", queryReq |-> FALSE, unwrap |-> FALSE, int64 |-> "", enumEnc |-> "",
           nullable |-> FALSE, empty |-> "", ts |-> "", bytes |-> "", flatten |-> FALSE, prefix |-> "",
-          oneofValue |-> "", examples |-> <<>>]
+          oneofValue |-> "", examples |-> <<>>,
+          \* explicit: every applicable annotation that is not set is written out with its default value
+          \* (nullable = false, unwrap = false, flatten = false, *_UNSPECIFIED); no operator of the
+          \* specification looks at it: such a definition means what the bare one means
+          explicit |-> FALSE]
 NoRules == [required |-> FALSE, minLen |-> -1, maxLen |-> -1, pattern |-> "", format |-> "", hasConst |-> FALSE,
             const |-> "", in |-> <<>>, gt |-> "", gte |-> "", lt |-> "", lte |-> "", minItems |-> -1, maxItems |-> -1,
             unique |-> FALSE, minPairs |-> -1, maxPairs |-> -1]
